@@ -95,7 +95,7 @@ Proof.
   destruct SR3 as (Ec3 & Ecs3 & Emg3 & Epn3 & Elo3 & Egs3).
   (* repair / ghost flag: gap further up *)
   set (s := st_nonce (cur_state p) a) in *.
-  set (next := s + N.of_nat (length (run_from (length (items (txs l3))) (items (txs l3)) s))).
+  remember (s + N.of_nat (length (run_from (length (items (txs l3))) (items (txs l3)) s))) as next eqn:Enext.
   match goal with |- context [match ?X with pair _ _ => _ end] =>
     destruct X as [[gapped2 l4] seen] eqn:C2 end.
   assert (H4 : strict l4 = strict l3 /\ (forall x, In x (litems l3) <-> In x (litems l4) \/ In x gapped2) /\
@@ -103,17 +103,17 @@ Proof.
                (forall x, In x (litems l3) -> t_nonce x <= next -> In x (litems l4)) /\
                ((gapfix (cfg p3) = true \/ seen = false) -> forall x, In x (litems l4) -> t_nonce x <= next)).
   { destruct (negb (l_empty l3)) eqn:Ne; [destruct (gapfix (cfg p3)) eqn:Gf|].
-    - cbn zeta in C2. fold next in C2. destruct (sm_filter (txs l3) _) as [inv0 m] eqn:SF. injection C2 as <- <- <-.
+    - cbn zeta in C2. destruct (sm_filter (txs l3) _) as [inv0 m] eqn:SF. injection C2 as <- <- <-.
       pose proof (sm_filter_spec _ _ _ _ SF) as [S1 S2]. destruct (sm_filter_uniq _ _ _ _ Ul3 SF) as [U1 U2].
       unfold litems. cbn [txs strict]. repeat split; auto.
       + intro Hx. destruct (N.ltb next (t_nonce x)) eqn:E; [right; apply S1|left; apply S2]; auto.
       + intros [Hx|Hx]; [apply S2 in Hx|apply S1 in Hx]; tauto.
       + intros x Hk Hd. apply S2 in Hk as [_ Hk]. apply S1 in Hd as [_ Hd]. congruence.
-      + intros x Hx Hn. apply S2. split; auto. lia.
-      + intros _ x Hx. apply S2 in Hx as [_ Hx]. lia.
-    - cbn zeta in C2. fold next in C2. injection C2 as <- <- <-. repeat split; auto; cbn [In]; try tauto; try constructor.
+      + intros x Hx Hn. apply S2. split; auto. apply N.ltb_ge. exact Hn.
+      + intros _ x Hx. apply S2 in Hx as [_ Hx]. apply N.ltb_ge in Hx. exact Hx.
+    - cbn zeta in C2. injection C2 as <- <- <-. repeat split; auto; cbn [In]; try tauto; try constructor.
       intros [Hf|Hs] x Hx; [discriminate|].
-      destruct (N.ltb next (t_nonce x)) eqn:E; [|lia]. exfalso.
+      destruct (N.ltb next (t_nonce x)) eqn:E; [|apply N.ltb_ge in E; exact E]. exfalso.
       assert (existsb (fun t => N.ltb next (t_nonce t)) (items (txs l3)) = true) by (apply existsb_exists; eauto).
       congruence.
     - injection C2 as <- <- <-. repeat split; auto; cbn [In]; try tauto; try constructor.
@@ -197,23 +197,23 @@ Proof.
         left; first [apply M3; auto; fail | apply Sub32, M4; auto]. }
     split.
     { intros x Hx En Ok. rewrite Pf, N.eqb_refl. rewrite LP in Hx. unfold sn in En. fold s in En.
-      assert (H1 : In x (litems l1)) by (apply Fk; split; auto; fold s; lia).
+      assert (H1 : In x (litems l1)) by (apply Fk; split; auto; fold s; rewrite En; apply N.le_refl).
       assert (H2 : In x (litems l2)).
       { apply Fm in H1 as [H1|[H1|H1]]; auto; exfalso.
         - apply Fdr in H1 as [_ T]. unfold too_costly in T. destruct Ok as (_ & O1 & O2).
-          rewrite (Fa0 x Hx) in O1. rewrite Ecs1, Emg1 in T. lia.
+          rewrite (Fa0 x Hx) in O1. rewrite Ecs1, Emg1 in T. clear -T O1 O2. lia.
         - destruct (l_filter_inv_above _ _ _ _ _ _ Fi x H1) as (y & Hy & Lt).
-          apply Fdr in Hy as [Hy _]. apply Fk in Hy. fold s in Hy. lia. }
-      apply Keep4; [apply Front3; auto|]. unfold next. lia. }
+          apply Fdr in Hy as [Hy _]. apply Fk in Hy. fold s in Hy. clear -Hy Lt En. lia. }
+      apply Keep4; [apply Front3; auto|]. rewrite Enext, En. clear. lia. }
     intros Hyp t m Ht Hm. rewrite Pf, N.eqb_refl in *. unfold sn in Hm. fold s in Hm.
     assert (Hc : gapfix (cfg p3) = true \/ seen = false).
     { destruct Hyp as [H|H]; [left|right].
       - rewrite Ec3. cbn [cfg put_p set_pending]. rewrite Ec2, Ec1. auto.
       - rewrite Egs_all in H. destruct seen; auto. }
     assert (Hle : t_nonce t <= next) by (apply Cut4; auto).
-    assert (Hne : t_nonce t <> next) by (apply run_from_stops; auto; fold (litems l3); auto).
-    destruct (run_from_covers (length (items (txs l3))) (items (txs l3)) s m) as (x & Hx & En); [fold next; lia|].
-    apply run_from_spec in Hx as [Hx Hr]. exists x. split; auto. apply Keep4; auto. fold next in Hr. lia. }
+    assert (Hne : t_nonce t <> next) by (rewrite Enext; apply run_from_stops; auto; fold (litems l3); auto).
+    destruct (run_from_covers (length (items (txs l3))) (items (txs l3)) s m) as (x & Hx & En); [rewrite <- Enext; clear -Hm Hle Hne; lia|].
+    apply run_from_spec in Hx as [Hx Hr]. rewrite <- Enext in Hr. exists x. split; auto. apply Keep4; auto. clear -Hr En Hm Hle. lia. }
   destruct (l_empty l4) eqn:Em.
   - apply l_empty_items in Em. apply FIN; auto.
     intro b. cbn [pending set_beats set_pending]. rewrite lst_adel. destruct (N.eqb a b) eqn:E; auto.
